@@ -12,12 +12,15 @@
 (*   SameAsFresh         the full projection (types, constant types, theorem statements,       *)
 (*                       attributes, overloads) equals that of the canonical fresh process     *)
 EXTENDS C12_Items, TraceLib, FiniteSets
-RECURSIVE DepOrder(_, _)
-DepOrder(names, acc) ==
+\* the import list of a file: the last one written by a `reimport` edit of the history, otherwise the library's
+ImportsOf(n, re) == LET K == { k \in 1..Len(re) : re[k][1] = n } IN
+                    IF K = {} THEN cImports[n] ELSE re[CHOOSE k \in K : \A j \in K : j <= k][2]
+RECURSIVE DepOrder(_, _, _)
+DepOrder(names, acc, re) ==
   IF names = <<>> THEN acc
   ELSE LET n == Head(names)
-           acc1 == IF \E i \in 1..Len(acc) : acc[i] = n THEN acc ELSE Append(DepOrder(cImports[n], acc), n)
-       IN DepOrder(Tail(names), acc1)
+           acc1 == IF \E i \in 1..Len(acc) : acc[i] = n THEN acc ELSE Append(DepOrder(ImportsOf(n, re), acc, re), n)
+       IN DepOrder(Tail(names), acc1, re)
 RangeS(s) == { s[i] : i \in 1..Len(s) }
 NoLimit == <<"none", "none">>
 StartLimit == <<"start", "start">>
@@ -27,8 +30,8 @@ OwnCount(th, lim) == IF lim = NoLimit THEN Len(cItems[th]) ELSE IF lim = StartLi
 ValidLimit(th, lim) == lim = NoLimit \/ lim = StartLimit \/ LimitIdx(th, lim) > 0
 ExtNames(th, n) == UNION { { <<x[1], x[2]>> : x \in { y \in RangeS(cItems[th][i][4]) : y[1] \in {0, 1, 2} } } : i \in 1..n }
 Known(th) == th \in DOMAIN cItems
-ExpectedNames(th, lim, edits) ==
-  LET deps == RangeS(DepOrder(cImports[th], <<>>)) IN
+ExpectedNames(th, lim, edits, re) ==
+  LET deps == RangeS(DepOrder(ImportsOf(th, re), <<>>, re)) IN
   cBase \cup UNION { ExtNames(d, Len(cItems[d])) : d \in deps } \cup ExtNames(th, OwnCount(th, lim))
         \cup { <<1, edits[k][2]>> : k \in { k \in 1..Len(edits) : edits[k][1] \in deps \/ (edits[k][1] = th /\ lim = NoLimit) } }
 Installed(e) == { <<e.installed[k][1], e.installed[k][2]>> : k \in 1..Len(e.installed) }
@@ -37,7 +40,7 @@ ClausesOf(e) ==
   ELSE IF e.cyclic THEN (IF e.outcome = "ok" THEN {"CycleIsError"} ELSE {})
   ELSE IF ~ValidLimit(e.name, e.limit) THEN (IF e.outcome = "ok" THEN {"MissingLimitIsError"} ELSE {})
   ELSE IF e.outcome # "ok" THEN {"LoadSucceeds"}
-  ELSE (IF Installed(e) = ExpectedNames(e.name, e.limit, e.edits) THEN {} ELSE {"ReturnsExpected"})
+  ELSE (IF Installed(e) = ExpectedNames(e.name, e.limit, e.edits, e.reimports) THEN {} ELSE {"ReturnsExpected"})
        \cup (IF e.canon # "none" /\ e.digest # e.canon THEN {"SameAsFresh"} ELSE {})
 NontrivialOf(e) == e.op = "load" /\ Known(e.name)
 TNext == LET e == Trace[l] IN TStep(e.tid, ClausesOf(e), NontrivialOf(e), FALSE)
